@@ -73,6 +73,7 @@ a regular expression, so the synchronization above could also be achieved with:
 
     dst_job.sync(src_job, doc_sync=sync.DocSync.ByKey('foo'))
 """
+import errno
 import logging
 import os
 import re
@@ -326,6 +327,19 @@ class _FileModifyProxy:
     def copytree(self, src, dst, **kwargs):
         """Copy tree src to dst."""
         logger.more(f"Copy tree '{_safe_relpath(src)}' -> '{_safe_relpath(dst)}'.")
+        if self.dry_run:
+            # Create nothing in a dry run, only report the files that would be copied.
+            if os.path.lexists(dst):
+                raise FileExistsError(errno.EEXIST, os.strerror(errno.EEXIST), dst)
+            ignore = kwargs.get("ignore")
+            for path, dirnames, filenames in os.walk(src):
+                ignored = set(ignore(path, dirnames + filenames)) if ignore else set()
+                dirnames[:] = [dn for dn in dirnames if dn not in ignored]
+                for fn in filenames:
+                    if fn not in ignored:
+                        fn_src = os.path.join(path, fn)
+                        self.copy(fn_src, os.path.join(dst, os.path.relpath(fn_src, src)))
+            return
         shutil.copytree(src, dst, copy_function=self.copy, **kwargs)
 
     @contextmanager
